@@ -61,9 +61,10 @@ type c3LScript struct {
 }
 
 type c3Attempt struct {
-	ms  []c3Reply
-	tok []bool
-	ls  []c3LScript
+	ms     []c3Reply
+	tok    []bool
+	ls     []c3LScript
+	cancel string // "" | "start" | "verifying <k>" | "writing": the caller cancels at that progress callback
 }
 
 type c3Man struct {
@@ -168,6 +169,11 @@ func (a c3Attempt) line(sb *strings.Builder) {
 				c.line(sb)
 			}
 		}
+	}
+	if a.cancel == "" {
+		sb.WriteString(" cancel none")
+	} else {
+		sb.WriteString(" cancel " + a.cancel)
 	}
 }
 
@@ -372,6 +378,14 @@ func c3Parse(line string) *c3Case {
 				l.chunks = append(l.chunks, cs)
 			}
 			a.ls = append(a.ls, l)
+		}
+		p.expect("cancel")
+		switch t := p.tok(); t {
+		case "none":
+		case "verifying":
+			a.cancel = "verifying " + p.tok()
+		default:
+			a.cancel = t
 		}
 		c.attempts = append(c.attempts, a)
 	}
